@@ -10,6 +10,8 @@ Case (driver "schedule"):
      l_global_c / l_global_s   register the next unused global listener (state.add_*_listener)
      l_listen_c / l_listen_s   per-object listener (a%2) on live object b  (circuit.listen / stream.listen)
      l_unlisten_c / _s         remove registration number a (obj.unlisten) - global or per-object listener
+     l_readd_c / _s            state.add_*_listener() AGAIN for a listener that is registered state-wide already
+                               (preferably one that was unlistened from a live object meanwhile)
      w_built / w_closed        circuit.when_built() / when_closed() on known circuit a (b%4==0: incl. gone ones)
      q_close_c / q_close_s     Circuit.close() / Stream.close() on live object a (c%6==0: on a gone one;
                                c%6==5: requested twice in a row; c%3==1: tor's reply is not delayed;
@@ -27,7 +29,8 @@ Case (driver "schedule"):
    "progs": [[li, trig, act, tgt], ...]  (optional) things listener double li (0-3 circuit, 4-7 stream listeners;
                                0,1 global-type, 2,3 per-object-type) does from INSIDE callback number trig while an
                                event is being delivered: act 0 = unlisten itself from that object, 1 = unlisten
-                               listener tgt of the same kind from it, 2 = listen() per-object listener tgt%2 on it
+                               listener tgt of the same kind from it, 2 = listen() per-object listener tgt%2 on it,
+                               3 = state.add_*_listener(global listener tgt%2) - for the first time or again
 After the last step every withheld reply is delivered and the waits are judged once more.
 """
 from __future__ import annotations
@@ -45,7 +48,8 @@ LEVEL = "exploration"
 RULE = ("Model-based: the C07 world histories (snapshot from a generated pre-history, then one 650 CIRC/STREAM "
         "event per legal step, through the real parser into a real TorState) crossed with generated schedule "
         "steps: recording ICircuitListener/IStreamListener doubles registered globally (before bootstrap or at "
-        "any step) or on one object, removed at any step; when_built()/when_closed()/Circuit.close()/"
+        "any step) or on one object, removed at any step, registered state-wide AGAIN after having been removed from "
+        "single objects (as a schedule step or from inside a callback); when_built()/when_closed()/Circuit.close()/"
         "Stream.close() requested at any step, repeatedly, on live and on already-gone objects; the reply to "
         "CLOSECIRCUIT/CLOSESTREAM is a separate step (ack) and so is tor carrying out the close (x_gone, or any "
         "c_close/s_close), so the acknowledgement arrives before or after the CLOSED/FAILED event; the public "
@@ -64,8 +68,12 @@ ASSUMPTIONS = [
     "registered/removed, are not judged (a snapshot entry is not a 'reported transition')",
     "a listener registered on one object more than once (listen() twice, or listen() on top of a global "
     "registration) still gets exactly one notification per transition; such a registration is never "
-    "unlistened (whether one unlisten undoes all registrations is not said); a listener is never added "
-    "globally twice; listener doubles never raise and never (un)register from inside a callback",
+    "unlistened (whether one unlisten undoes all registrations is not said); listener doubles never raise",
+    "a listener that is registered with add_circuit_listener()/add_stream_listener() AGAIN (after it was "
+    "unlistened from some objects, outside or from inside a callback) counts as registered on every live object "
+    "again - 'including listeners that were added after the object appeared' - and still gets exactly one "
+    "notification per transition; objects on which it was registered already count as registered twice (never "
+    "unlistened afterwards, as above), and so do objects that appear later",
     "within one event the order of that event's notifications is free (e.g. circuit_new vs circuit_launched); "
     "across events the order is the event order",
     "one circuit_extend per hop beyond the path the listener's controller knew; GUARD_WAIT, REMAP, "
@@ -107,7 +115,7 @@ ASSUMPTIONS = [
 ]
 
 EXTRA_OPS = {"l_global_c": 2, "l_global_s": 2, "l_listen_c": 3, "l_listen_s": 3, "l_unlisten_c": 2,
-             "l_unlisten_s": 2, "w_built": 5, "w_closed": 3, "q_close_c": 5, "q_close_s": 6, "ack": 7, "x_gone": 5,
+             "l_unlisten_s": 2, "l_readd_c": 2, "l_readd_s": 2, "w_built": 5, "w_closed": 3, "q_close_c": 5, "q_close_s": 6, "ack": 7, "x_gone": 5,
              "q_build": 4, "c_announce": 3}
 
 
@@ -117,7 +125,7 @@ TRIG = [4, 5, 4, 5, 3, 2, 1, 0]         # terminal notifications are the favouri
 
 
 def cases():
-    prog = st.tuples(st.integers(0, 7), st.integers(0, 7), st.integers(0, 2), st.integers(0, 3)).map(list)
+    prog = st.tuples(st.integers(0, 7), st.integers(0, 7), st.integers(0, 3), st.integers(0, 3)).map(list)
     return st.builds(lambda m, p, e, s, g: {"modern": m, "pre": p, "early": e, "steps": s, "progs": g},
                      st.booleans(),
                      st.one_of(st.just([]), torworld.steps(max_size=12), torworld.steps(max_size=30)),
@@ -219,6 +227,7 @@ class Lst(object):
         self.seen = 0               # calls already judged
         self.late_for = set()       # incarnations that existed before it was registered globally
         self.multi = set()          # incarnations it was registered on more than once (never unlistened)
+        self.global_twice = False   # added state-wide more than once: later objects get it twice as well
 
 
 # --------------------------------------------------------------------------- expected notifications
@@ -449,6 +458,15 @@ class Run(object):
             return
         res = self.res
         for act, tgt in todo:
+            if act == 3:
+                # state.add_*_listener(global listener tgt%2) from inside the callback, first time or again
+                t = self.lst[kind][tgt % 2]
+                was = inc in t.reg
+                again = self.add_global(t)
+                if t is not l and not was:
+                    self.touched.add(t)
+                res.label("prog:add-global-listener-%s-inside-notification" % ("again" if again else "first-time"))
+                continue
             if act == 0:
                 t = l
             elif act == 1:
@@ -514,15 +532,23 @@ class Run(object):
             self.on_extend_reply(idx)
 
     def add_global(self, l):
+        """state.add_*_listener(l) - for the first time or again."""
         w = self.sess.world
         live = w.circuits if l.kind == "c" else w.streams
-        l.late_for = set(m.inc for m in live.values() if self.knows(m))
+        again = l.active_global
+        if again:
+            l.late_for |= set(m.inc for m in live.values() if self.knows(m) and m.inc not in l.reg)
+            l.multi |= set(m.inc for m in live.values() if m.inc in l.reg)
+            l.global_twice = True
+        else:
+            l.late_for = set(m.inc for m in live.values() if self.knows(m))
         if l.kind == "c":
             self.sess.state.add_circuit_listener(l.rec)
         else:
             self.sess.state.add_stream_listener(l.rec)
         l.active_global = True
         l.reg.update(m.inc for m in live.values())
+        return again
 
     # -- one step
     def step(self, i, s):
@@ -540,6 +566,8 @@ class Run(object):
                 for l in self.lst[kind]:
                     if l.active_global:
                         l.reg.add(inc)
+                        if l.global_twice:
+                            l.multi.add(inc)
             self.touched = set()
             self.cur_event, self.cur_id = (kind, inc, rp.zombie), rp.obj.id
             try:
@@ -605,6 +633,17 @@ class Run(object):
             if cand:
                 self.add_global(cand[0])
                 res.label("global-listener-added-mid-history")
+        elif op in ("l_readd_c", "l_readd_s"):
+            # add_*_listener() again for a listener that is registered state-wide already; prefer one that
+            # was unlistened from a live object meanwhile
+            kind = op[-1]
+            live = w.circuits if kind == "c" else w.streams
+            cand = [l for l in self.lst[kind] if l.active_global]
+            pref = [l for l in cand if any(self.knows(m) and m.inc not in l.reg for m in live.values())]
+            if pref or cand:
+                l = (pref or cand)[a % len(pref or cand)]
+                self.add_global(l)
+                res.label("global-listener-added-again" + ("/after-unlisten-from-a-live-object" if pref else ""))
         elif op in ("l_listen_c", "l_listen_s"):
             kind = op[-1]
             live = w.circuits if kind == "c" else w.streams
@@ -762,6 +801,8 @@ class Run(object):
                 for l in self.lst["c"]:
                     if l.active_global:
                         l.reg.add(m.inc)
+                        if l.global_twice:
+                            l.multi.add(m.inc)
                         self.owed_new.add((l, m.inc))
             else:
                 res.label("build:LAUNCHED-before-reply")
@@ -981,6 +1022,14 @@ def run(ctx):
 
 
 MUTANTS = [
+    ("add-circuit-listener-again-is-a-no-op", "txtorcon/torstate.py",
+     "        listen = ICircuitListener(icircuitlistener)\n        for circ in self.circuits.values():",
+     "        listen = ICircuitListener(icircuitlistener)\n        if listen in self.circuit_listeners:\n            return\n"
+     "        for circ in self.circuits.values():"),
+    ("add-stream-listener-again-is-a-no-op", "txtorcon/torstate.py",
+     "        listen = IStreamListener(istreamlistener)\n        for stream in self.streams.values():",
+     "        listen = IStreamListener(istreamlistener)\n        if listen in self.stream_listeners:\n            return\n"
+     "        for stream in self.streams.values():"),
     # the next three need fix C08-listener-removed-during-delivery (snapshot iteration) in the tree
     ("closed-notification-loop-iterates-live-list", "txtorcon/circuit.py",
      "            for x in list(self.listeners):\n                x.circuit_closed(self, **flags)",
